@@ -1,3 +1,3 @@
 Require Import ExtrOcamlBasic.
 Require Import SGV.Kernel.Barrier.
-Extraction "c07_model.ml" run_c07 run_c07_judge.
+Extraction "c07_model.ml" run_c07 run_c07_judge run_c07_split.
